@@ -30,7 +30,27 @@ func (s *tshape) Sexp() string {
 	return "(P " + s.l.Sexp() + " " + s.r.Sexp() + ")"
 }
 
-func (s *tshape) build() tree.Node {
+// foreignPair is an inner node implemented outside the tree package (here simply by embedding a
+// pair): everything that walks a tree has to go through the Node interface.
+type foreignPair struct{ *tree.PairNode }
+
+// foreignInner: build() makes the inner pairs below the root foreign ones
+var foreignInner bool
+
+func (s *tshape) build() tree.Node { return s.buildAt(0) }
+
+func (s *tshape) buildAt(level int) tree.Node {
+	if s.kind == "P" {
+		p := tree.NewPairNode(s.l.buildAt(level+1), s.r.buildAt(level+1))
+		if foreignInner && level > 0 {
+			return foreignPair{p}
+		}
+		return p
+	}
+	return s.buildLeaf()
+}
+
+func (s *tshape) buildLeaf() tree.Node {
 	switch s.kind {
 	case "L":
 		var r tree.Root
@@ -39,7 +59,7 @@ func (s *tshape) build() tree.Node {
 	case "Z":
 		return &tree.ZeroHashes[s.d]
 	}
-	return tree.NewPairNode(s.l.build(), s.r.build())
+	panic("buildLeaf: not a leaf")
 }
 
 type dumper struct {
@@ -63,6 +83,9 @@ func zeroIndex(n tree.Node) int {
 }
 
 func (d *dumper) dump(n tree.Node) string {
+	if f, ok := n.(foreignPair); ok {
+		n = f.PairNode
+	}
 	if z := zeroIndex(n); z >= 0 {
 		return "Z" + strconv.Itoa(z)
 	}
@@ -84,6 +107,9 @@ func (d *dumper) dump(n tree.Node) string {
 }
 
 func plainDump(n tree.Node) string {
+	if f, ok := n.(foreignPair); ok {
+		n = f.PairNode
+	}
 	switch x := n.(type) {
 	case *tree.Root:
 		return "L:" + hexBytes(x[:])
@@ -212,6 +238,15 @@ func TestC11(t *testing.T) {
 					}
 				}
 				out.emit("ex", "c11", []string{sh.Sexp(), "summ", hx(g), "0", "-"}, c11Obs(sh, "summ", g, false, nil, h))
+				if si%3 == 0 && g >= 4 {
+					// the same tree with its inner pairs implemented by a foreign Node type (reads,
+					// plain structural observations: rebinding below them yields library pairs)
+					foreignInner = true
+					out.emit("foreign", "c11", []string{sh.Sexp(), "get", hx(g), "0", "-"}, c11ObsPlain(sh, "get", g, false, nil, h))
+					out.emit("foreign", "c11", []string{sh.Sexp(), "set2", hx(g), "1", v.Sexp()}, c11Obs(sh, "set2", g, true, v, h))
+					out.emit("foreign", "c11", []string{sh.Sexp(), "summ", hx(g), "0", "-"}, c11Obs(sh, "summ", g, false, nil, h))
+					foreignInner = false
+				}
 			}
 		}
 		// random trees to depth 12, indices up to 63 bits
@@ -273,4 +308,14 @@ func TestC11(t *testing.T) {
 		}
 	})
 	_ = strings.Join
+}
+
+// c11ObsPlain: like c11Obs "get", but only the result kind is compared (res=OK / res=ERR): node
+// identities of foreign nodes have no counterpart in the model's numbering
+func c11ObsPlain(shape *tshape, op string, g uint64, expand bool, vshape *tshape, h tree.HashFn) string {
+	o := c11Obs(shape, op, g, expand, vshape, h)
+	if i := strings.Index(o, " "); i >= 0 {
+		return o[:i]
+	}
+	return o
 }
